@@ -438,6 +438,12 @@ pub fn gen_ring_cfg(rng: &mut Rng, with_apps: bool, small_hsa_bias: bool) -> Rin
     let mut order: Vec<usize> = (0..n).collect();
     rng.shuffle(&mut order);
     let late_at = rot * (3 + rng.below(60) as i64) + bits_to_us(baud, (6 + 2 * 126) * slot_bits as u64) / (1 + rng.below(8) as i64);
+    // "joining a bus that is already active": a joiner that goes online while the first group is still
+    // waiting out its silence time-out races with it for the claim (the excluded un-synchronised
+    // cold-start race, section 5.3).  The first claim comes at most Tslot/2 + (6 + 2*a_min)*Tslot after
+    // the start; from then on the bus is never silent for a whole time-out again.
+    let a_min_first = order[..first_count].iter().map(|i| addrs[*i]).min().unwrap_or(0);
+    let late_at = late_at.max(tslot / 2 + (6 + 2 * a_min_first as i64) * tslot + 4 * tslot + 4 * pmax);
     for (k, idx) in order.iter().enumerate() {
         let addr = addrs[*idx];
         let period = match rng.usize(4) {
